@@ -37,6 +37,9 @@ def run(ctx: Ctx):
     col.ob("G1", "S1", f"{where}::optimal_completion-binding", got == want,
            f"optimal_completion is called with {got}; expected {want} (one loss position per hypothesis token needs "
            f"exclude_last=True)", rel, calls[0].lineno, sample=got)
+    # ---- S2 as a table first: when the loss tail is inside the interpreted fragment, the table decides the sentinel agreement, the
+    # average over the target set and the clamped divisors by value, and the shape-based clauses below are not consulted
+    table_decided = _loss_tail_table(ctx, f, rel)
     # ---- S2 one sentinel: padding of the targets == ignore_index of cross_entropy == the padding mask constant ----
     ce = [c for c in own_calls(f.node) if call_name(c).endswith("cross_entropy")]
     okce = len(ce) == 1 and kwarg(ce[0], "ignore_index") is not None and u(kwarg(ce[0], "ignore_index")) == "ignore_index" \
@@ -50,10 +53,11 @@ def run(ctx: Ctx):
     from sa.astutil import oriented
     masks = [n for n in own_nodes(f.node) if isinstance(n, ast.Assign) and (oriented(n.value, lambda e: u(e) == tvar) or (None,))[0] == "eq"]
     okm = len(masks) == 1 and u(oriented(masks[0].value, lambda e: u(e) == tvar)[2]) == "ignore_index"
-    col.ob("G13", "S2", f"{where}::one-padding-sentinel", okce and okm and got.get("padding") == "ignore_index",
-           f"the target padding ({got.get('padding')}), the cross-entropy ignore_index and the padding mask constant "
-           f"({u(masks[0].value) if masks else None}) are not the same value: padded target slots would be scored", rel,
-           f.line, sample=dict(padding=got.get("padding"), ce=u(ce[0])[:120] if ce else None))
+    if not table_decided:
+      col.ob("G13", "S2", f"{where}::one-padding-sentinel", okce and okm and got.get("padding") == "ignore_index",
+             f"the target padding ({got.get('padding')}), the cross-entropy ignore_index and the padding mask constant "
+             f"({u(masks[0].value) if masks else None}) are not the same value: padded target slots would be scored", rel,
+             f.line, sample=dict(padding=got.get("padding"), ce=u(ce[0])[:120] if ce else None))
     # the loss per prefix: sum over non-padding targets / max(number of targets, 1), zero where none
     PM = masks[0].targets[0].id if masks and isinstance(masks[0].targets[0], ast.Name) else None
     ce_assign = [n for n in own_nodes(f.node) if isinstance(n, ast.Assign) and ce and any(x is ce[0] for x in ast.walk(n.value))]
@@ -101,13 +105,16 @@ def run(ctx: Ctx):
             okc = True
         if not okc:
             unclamped.append(n)
-    col.floor("count_divisors", ncount, 2)
-    col.ob("G12", "S2", f"{where}::count-divisors-are-at-least-one", not unclamped,
-           f"`{u(unclamped[0])[:100] if unclamped else ''}` divides by a number of non-padding entries that is 0 for a prefix (or a whole "
-           f"sequence) without targets - e.g. an empty reference: the quotient is 0 / 0 = NaN and the mean over the batch is NaN", rel,
-           unclamped[0].lineno if unclamped else f.line, sample=ncount)
-    col.ob("G16", "S2", f"{where}::average-over-target-set", PM is not None and LV is not None and okavg,
-           "the per-prefix loss is not (sum over non-padding targets) / max(number of targets, 1)", rel, f.line)
+    if not table_decided:
+      col.floor("count_divisors", ncount, 2)
+    if not table_decided or ncount:
+      col.ob("G12", "S2", f"{where}::count-divisors-are-at-least-one", not unclamped,
+             f"`{u(unclamped[0])[:100] if unclamped else ''}` divides by a number of non-padding entries that is 0 for a prefix (or a whole "
+             f"sequence) without targets - e.g. an empty reference: the quotient is 0 / 0 = NaN and the mean over the batch is NaN", rel,
+             unclamped[0].lineno if unclamped else f.line, sample=ncount)
+    if not table_decided:
+      col.ob("G16", "S2", f"{where}::average-over-target-set", PM is not None and LV is not None and okavg,
+             "the per-prefix loss is not (sum over non-padding targets) / max(number of targets, 1)", rel, f.line)
     R_enum.g8_dispatch(pkg, res, col, f, "reduction", "S2", members=["mean", "sum", "none"], allow_else=0)
     # mean reduction: per-sequence average over its non-padding prefixes, i.e. both partial sums run over the
     # *sequence* axis of the (T, N) / (N, T) layout selected by batch_first, before the batch mean
@@ -133,7 +140,6 @@ def run(ctx: Ctx):
            f"and the padding mask are laid out like the targets, (N, T) when batch_first else (T, N), so the "
            f"per-sequence average over non-padding prefixes needs axis (1, 0): otherwise prefixes are averaged across "
            f"the batch and short sequences are mis-weighted", rel, axes[0][0].lineno, sample=[u(c)[:80] for c, _, _ in axes])
-    _loss_tail_table(ctx, f, rel)
     # in optimal_completion: targets buffer filled with `padding`, scattered by count mask
     rdo = ReachingDefs(oc.node)
     fulls = [c for c in own_calls(oc.node) if call_name(c) == "torch.full" and len(c.args) >= 2]
@@ -184,7 +190,7 @@ def _loss_tail_table(ctx: Ctx, f, rel: str):
     from fractions import Fraction as Fr
     from sa.interp import Interp
     from sa.inteval import NotEvaluable
-    from sa.teval import frac_array
+    from sa.teval import DivisionByZero, frac_array
     col = ctx.col
     where = f"{rel}::{f.qualname}"
     body = f.node.body
@@ -206,11 +212,14 @@ def _loss_tail_table(ctx: Ctx, f, rel: str):
                         opt, lv = np.swapaxes(opt, 0, 1), np.swapaxes(lv, 0, 1)
                     opt = frac_array(opt.tolist())
 
-                    def leaf(x, env, opt=opt, lv=lv):
+                    def leaf(x, env, opt=opt, lv=lv, ignore_=ignore):
                         if isinstance(x, ast.Call):
                             nm = call_name(x)
                             if nm == "optimal_completion":
-                                return opt
+                                # the target lists are padded with what the call asks for (`padding=`; the library default otherwise)
+                                pk = [k.value for k in x.keywords if k.arg == "padding"]
+                                pad_ = holder["it"].eval(pk[0], env) if pk else -100
+                                return np.where(opt == ignore_, pad_, opt) if pad_ != ignore_ else opt
                             if nm.endswith("cross_entropy"):
                                 kws = {k.arg: k.value for k in x.keywords}
                                 if "reduction" not in kws or u(kws["reduction"]) != "'none'":
@@ -221,6 +230,9 @@ def _loss_tail_table(ctx: Ctx, f, rel: str):
                                 flat = lv.reshape(-1)
                                 if tg.shape != flat.shape:
                                     raise NotEvaluable("cross_entropy target shape")
+                                from sa.interp import Raised
+                                if any((int(t_) < 0 or int(t_) >= 6) and t_ != ig for t_ in tg.tolist()):
+                                    raise Raised("IndexError (cross_entropy: a target that is not ignored is out of bounds)")
                                 return np.where(tg == ig, Fr(0), flat)
                         return None
                     holder = {}
@@ -246,9 +258,14 @@ def _loss_tail_table(ctx: Ctx, f, rel: str):
                                                   if hasattr(want, "shape") else (not hasattr(got, "shape") or getattr(got, "size", 2) == 1) and got == want)
                     if not same and bad is None:
                         bad = (ignore, bf, red, kind, got, want)
+    except DivisionByZero as e:
+        col.ob("G12", "S2", f"{where}::loss-table", False,
+               f"`{e}` divides by zero for the reference target lists (a prefix without targets, a sequence whose every prefix is padding): the "
+               f"quotient is 0 / 0 = NaN and the mean over the batch is NaN; a divisor that counts targets must be clamped to at least one", rel, f.line)
+        return True
     except NotEvaluable as e:
         col.undecided(f"{where}: the tail of the loss is outside the interpreted fragment ({e})")
-        return
+        return False
     col.floor("ocd_loss_table_rows", n_rows, 18)
 
     def _show(v):
@@ -257,6 +274,7 @@ def _loss_tail_table(ctx: Ctx, f, rel: str):
            (f"with ignore_index={bad[0]}, batch_first={bad[1]}, reduction={bad[2]!r} the loss tail computes {_show(bad[4]) if bad[3] == 'return' else 'raise ' + str(bad[4])} "
             f"for the reference target lists; the documented value (per prefix: sum over its targets / max(#targets, 1); 'mean': per sequence, sum over "
             f"prefixes / max(#prefixes with a target, 1), then the batch mean) is {_show(bad[5])}") if bad else "", rel, f.line, sample=dict(rows=n_rows))
+    return True
 
 
 def _mutants():
@@ -271,8 +289,8 @@ def _mutants():
         M("loss-includes-last-prefix", S, "padding=ignore_index, exclude_last=True, warn=warn)", "padding=ignore_index, exclude_last=False, warn=warn)", "optimal_completion-binding"),
         M("padding-default-used", S, "padding=ignore_index, exclude_last=True, warn=warn)", "exclude_last=True, warn=warn)", "G"),
         M("mask-compares-other-constant", S, "padding_mask = optimals == ignore_index", "padding_mask = optimals == config.INDEX_PAD_VALUE", "one-padding-sentinel"),
-        M("ce-ignores-default", S, "weight=weight, ignore_index=ignore_index, reduction='none'", "weight=weight, reduction='none'", "one-padding-sentinel"),
-        M("no-clamp", S, "loss = loss / (~padding_mask).sum(2).clamp_min(1)", "loss = loss / (~padding_mask).sum(2)", "average-over-target-set"),
+        M("ce-ignores-default", S, "weight=weight, ignore_index=ignore_index, reduction='none'", "weight=weight, reduction='none'", "loss-table"),
+        M("no-clamp", S, "loss = loss / (~padding_mask).sum(2).clamp_min(1)", "loss = loss / (~padding_mask).sum(2)", "loss-table"),
         M("oc-not-mask-mode", S, "sub_cost, warn, return_mask=True, exclude_last=exclude_last)", "sub_cost, warn, return_prf_dsts=True, exclude_last=exclude_last)", "kernel-mode"),
         M("targets-right-aligned", S, "target_mask = counts.unsqueeze(-1) > torch.arange(C, device=device)", "target_mask = counts.unsqueeze(-1) >= torch.arange(C, device=device)", "targets-left-aligned"),
         M("targets-zero-filled", S, "targets = torch.full((H, N, C), padding, dtype=torch.long, device=device)", "targets = torch.full((H, N, C), 0, dtype=torch.long, device=device)", "targets-initialised"),
